@@ -67,6 +67,48 @@ def _helpers(f) -> bool:
         f.name.startswith("_") and f.name != "_get_length_formatter"
 
 
+def _memo_assume(t: T):
+    """a module-level memo table is read as empty (`TABLE.get(key) is None`,
+    `key not in TABLE`): the value is then computed afresh, and that the
+    stored one equals it is the memo-key rule's business"""
+    def table(x: T) -> bool:
+        return x.op == "named" and x.args[1].op == "dict" and \
+            not x.args[1].args
+    if t.op == "cmp" and t.args[0] in ("Is", "IsNot") and \
+            t.args[2] is tm.NONE and is_call_to(t.args[1], ".get") and \
+            table(tm.method_recv(t.args[1])):
+        return t.args[0] == "Is"
+    if t.op == "cmp" and t.args[0] in ("In", "NotIn") and table(t.args[2]):
+        return t.args[0] == "NotIn"
+    return None
+
+
+def _memo_keys(ctx, prog, f_ax, pmq):
+    """C20.1: a label looked up in a module-level memo table must be keyed
+    by everything it was computed from — a key without the length unit
+    returns the first unit's label for every later unit"""
+    uq = prog.cls("evo.core.units.Unit").qualname
+    it = Interp(prog, inline=lambda fn: _helpers(fn) or fn.qualname ==
+                PL + "plot_mode_to_idx", max_depth=4)
+    r = it.run(f_ax)
+    for e in r.of_kind("setitem"):
+        b = e.data["base"]
+        if not (b.op == "named" and b.args[1].op == "dict"):
+            continue
+        kps = {x.args[0] for x in e.data["index"].walk() if x.op == "param"}
+        vps = {x.args[0] for x in e.data["value"].walk() if x.op == "param"}
+        missing = sorted(vps - kps)
+        ctx.ob("C20.1", e, not missing,
+               f"memo table {b.args[0].rsplit('.', 1)[-1]}: keyed by every "
+               f"input of the cached value ({sorted(vps)})" if not missing
+               else
+               f"memo table {b.args[0].rsplit('.', 1)[-1]} caches a value "
+               f"computed from {sorted(vps)} under a key made of "
+               f"{sorted(kps)} only: after the first call the cached labels "
+               f"are returned for every other {missing[0]} (e.g. '$x$ (m)' "
+               f"on a millimetre axis)", key="C20.1:memo-key")
+
+
 def _label_texts(prog, f_ax, pmq, m, axis):
     """[(unit text, label text)] of the axis label prepare_axis sets for
     plot mode m, one per length unit, by evaluation; [] if no label is set;
@@ -78,7 +120,8 @@ def _label_texts(prog, f_ax, pmq, m, axis):
         if um not in (prog.enum_members(uq) or []):
             continue
         it = Interp(prog, inline=lambda fn: _helpers(fn) or fn.qualname ==
-                    PL + "plot_mode_to_idx", max_depth=4)
+                    PL + "plot_mode_to_idx", max_depth=4,
+                    assume=_memo_assume)
         r = it.run(f_ax, {"plot_mode": tm.enum(pmq, m),
                           "length_unit": tm.enum(uq, um)})
         uval = it.get_attr(tm.enum(uq, um), "value", None, tm.TRUE)
@@ -201,6 +244,7 @@ def check(ctx):
                    f"prepare_axis({m}): no z label in 2-D",
                    key=f"C20.1:label:{m}:z", nontrivial=False)
 
+    ctx.section(_memo_keys, ctx, prog, f_ax, pmq)
     ctx.section(_traj, ctx, prog)
     ctx.section(_segments, ctx, prog)
     ctx.section(_markers, ctx, prog)
